@@ -123,7 +123,7 @@ def immtext(neg, mag, radix, digits=0):
 def opdtext(o):
     k = o["k"]
     if k == "r":
-        return regname(o)
+        return (o["kw"] + " " if o.get("kw") else "") + regname(o)      # (a size keyword written in front of a register)
     if k == "i":
         return (o["kw"] + " " if o.get("kw") else "") + immtext(o["neg"], o["mag"], o["radix"], o.get("digits", 0))
     names = G64 if o["a"] == 64 else G32
@@ -137,6 +137,10 @@ def opdtext(o):
             parts.append("%s*%d" % (names[o["i"]], o["s"]))
         else:
             parts.append("%d*%s" % (o["s"], names[o["i"]]))
+    if o.get("ord") in ("sb", "ib") and len(parts) == 2:
+        # the index part written in front of the base: [2*rax+rbx] ("sb") / [rax*2+rbx] ("ib")
+        idx = names[o["i"]] if o["s"] == 0 else ("%d*%s" % (o["s"], names[o["i"]]) if o["ord"] == "sb" else "%s*%d" % (names[o["i"]], o["s"]))
+        parts = [idx, names[o["b"]]]
     t = "+".join(parts)
     if o["hasd"]:
         lit = immtext(False, o["dm"], o["dr"])
